@@ -212,6 +212,22 @@ theorem recOK_of_wf {r : Rec} {last : Bool} (h : r.wf last = true) : RecOK r las
   obtain ⟨⟨⟨⟨⟨⟨h1, h2⟩, h3⟩, h4⟩, h5⟩, h6⟩, h7⟩ := h
   exact ⟨h1, h2, h3, h4, h5, h6, h7⟩
 
+theorem recOK_of_mem (recs : List Rec) (hwf : recsWf recs = true) (r : Rec) (hr : r ∈ recs) :
+    ∃ last, RecOK r last := by
+  induction recs with
+  | nil => simp at hr
+  | cons x xs ih =>
+    cases xs with
+    | nil =>
+      simp only [List.mem_singleton] at hr
+      simp only [recsWf] at hwf
+      rw [hr]; exact ⟨true, recOK_of_wf hwf⟩
+    | cons y ys =>
+      simp only [recsWf, Bool.and_eq_true] at hwf
+      rcases List.mem_cons.mp hr with rfl | hr
+      · exact ⟨false, recOK_of_wf hwf.1⟩
+      · exact ih hwf.2 hr
+
 theorem eol_space (e : Eol) : ∀ b ∈ e.bytes, isSpace b = true := by
   cases e <;> decide
 
@@ -307,11 +323,12 @@ theorem steps_recs (recs : List Rec) :
       (∀ r ∈ recs, (flush st).1.contains r.name = false) →
       (st.pending = {} ∨ st.pending.name ≠ []) →
       ∃ st', steps st (recs.map Rec.fileLines).flatten = .ok st' ∧
-        (flush st').1 = (flush st).1 ++ (entriesFrom st.offset recs).map ofEntry := by
+        (flush st').1 = (flush st).1 ++ (entriesFrom st.offset recs).map ofEntry ∧
+        (st'.pending = {} ∨ st'.pending.name ≠ []) := by
   induction recs with
   | nil =>
-    intro st _ _ _ _
-    exact ⟨st, rfl, by simp [entriesFrom]⟩
+    intro st _ _ _ hp
+    exact ⟨st, rfl, by simp [entriesFrom], hp⟩
   | cons r rs ih =>
     intro st hwf hdist hnew hp
     -- this record is well formed, the rest too
@@ -341,7 +358,7 @@ theorem steps_recs (recs : List Rec) :
       unfold flush
       simp only [hname, ne_eq, hok.name_ne, not_false_eq_true, if_true]
       exact set_new _ _ (by rw [hname]; exact hnew r List.mem_cons_self)
-    obtain ⟨st', h2, h3⟩ := ih ⟨(flush st).1, ofEntry (r.entry st.offset), st.offset + r.render.length, wd⟩
+    obtain ⟨st', h2, h3, h4⟩ := ih ⟨(flush st).1, ofEntry (r.entry st.offset), st.offset + r.render.length, wd⟩
       hrs hdist.2
       (by
         intro r' hr'
@@ -351,7 +368,7 @@ theorem steps_recs (recs : List Rec) :
         simp only [Index.contains, List.any_cons, List.any_nil, Bool.or_false, hname, beq_eq_false_iff_ne]
         exact fun h => hdist.1 r' hr' h.symm)
       (Or.inr (by simp only [hname]; exact hok.name_ne))
-    refine ⟨st', h2, ?_⟩
+    refine ⟨st', h2, ?_, h4⟩
     rw [h3, hfl]
     simp [entriesFrom]
 
@@ -548,9 +565,95 @@ theorem newIndex_render (f : Hts.Spec.Fasta.File) (h : f.WF) :
   rw [render_eq_lines, ← List.flatten_append,
     scan_eq_steps _ _ (linesOK_append _ _ (blank_term _ hlb) (recs_linesOK f.recs hwf)),
     steps_append, steps_blanks _ _ hlb]
-  obtain ⟨st', h1, h2⟩ := steps_recs f.recs
+  obtain ⟨st', h1, h2, _⟩ := steps_recs f.recs
     ⟨[], {}, 0 + (blankLines f.leadingBlanks).flatten.length, false⟩ hwf hdist (by intro r _; rfl) (Or.inl rfl)
   simp only at h1 ⊢
   rw [h1]
   simp only [h2, Hts.Spec.Fasta.File.entries, Hts.Spec.Fasta.File.leading, Nat.zero_add]
   rfl
+
+/-! ### rejected inputs: a well-formed file (every line terminated) followed by an offending line -/
+
+theorem recs_all_term (recs : List Rec) (hwf : recsWf recs = true) (hfin : ∀ r ∈ recs, r.finalNewline = true) :
+    ∀ l ∈ (recs.map Rec.fileLines).flatten, Term l := by
+  induction recs with
+  | nil => intro l hl; simp at hl
+  | cons x xs ih =>
+    have hx : ∃ last, x.wf last = true := by
+      cases xs with
+      | nil => exact ⟨true, by simpa [recsWf] using hwf⟩
+      | cons y ys =>
+        simp only [recsWf, Bool.and_eq_true] at hwf
+        exact ⟨false, hwf.1⟩
+    have hxs : recsWf xs = true := by
+      cases xs with
+      | nil => rfl
+      | cons y ys =>
+        simp only [recsWf, Bool.and_eq_true] at hwf
+        exact hwf.2
+    obtain ⟨last, hlast⟩ := hx
+    intro l hl
+    simp only [List.map_cons, List.flatten_cons, List.mem_append] at hl
+    rcases hl with hl | hl
+    · exact rec_fileLines_term x last (recOK_of_wf hlast) (hfin x List.mem_cons_self) l hl
+    · exact ih hxs (fun r hr => hfin r (List.mem_cons_of_mem _ hr)) l hl
+
+/-- the scanner state after a well-formed file all of whose lines are terminated -/
+theorem scan_file_then (f : Hts.Spec.Fasta.File) (h : f.WF) (hfin : ∀ r ∈ f.recs, r.finalNewline = true)
+    (rest : Bytes) :
+    ∃ st', scan {} (f.render ++ rest) = scan st' rest ∧ (flush st').1 = f.entries.map ofEntry ∧
+      (st'.pending = {} ∨ st'.pending.name ≠ []) := by
+  obtain ⟨_, hwf, hdist, hlead⟩ := h
+  have hlb := leading_blank hlead
+  unfold Hts.Spec.Fasta.File.render Hts.Spec.Fasta.File.leading
+  rw [render_eq_lines, ← List.flatten_append, scan_lines _ _ _ (by
+    intro l hl
+    rcases List.mem_append.mp hl with hl | hl
+    · exact blank_term _ hlb l hl
+    · exact recs_all_term f.recs hwf hfin l hl)]
+  rw [steps_append, steps_blanks _ _ hlb]
+  obtain ⟨st', h1, h2, h3⟩ := steps_recs f.recs
+    ⟨[], {}, 0 + (blankLines f.leadingBlanks).flatten.length, false⟩ hwf hdist (by intro r _; rfl) (Or.inl rfl)
+  simp only at h1 ⊢
+  rw [h1]
+  refine ⟨st', rfl, ?_, h3⟩
+  simp only [h2, Hts.Spec.Fasta.File.entries, Hts.Spec.Fasta.File.leading, Nat.zero_add]
+  rfl
+
+/-- a following line that is `>` alone (possibly surrounded by white space) is rejected -/
+theorem newIndex_nameless (f : Hts.Spec.Fasta.File) (h : f.WF) (hfin : ∀ r ∈ f.recs, r.finalNewline = true)
+    (line rest : Bytes) (hl : Term line) (hb : trimSpace line = [GT]) :
+    newIndex (f.render ++ (line ++ rest)) = .error .missingName := by
+  obtain ⟨st', h1, _, _⟩ := scan_file_then f h hfin (line ++ rest)
+  unfold newIndex
+  rw [h1, scan_term st' line rest hl]
+  have : step st' line = .error .missingName := by
+    unfold step; simp [hb]
+  rw [this]
+
+/-- a following header that repeats the name of a record of the file is rejected -/
+theorem newIndex_duplicate (f : Hts.Spec.Fasta.File) (h : f.WF) (hfin : ∀ r ∈ f.recs, r.finalNewline = true)
+    (r : Rec) (hr : r ∈ f.recs) (d t rest : Bytes) (hd : DescTail d) (ht : ∀ b ∈ t, isSpace b = true)
+    (hl : Term (GT :: (r.name ++ d) ++ t)) :
+    newIndex (f.render ++ ((GT :: (r.name ++ d) ++ t) ++ rest)) = .error .duplicate := by
+  obtain ⟨st', h1, h2, _⟩ := scan_file_then f h hfin ((GT :: (r.name ++ d) ++ t) ++ rest)
+  obtain ⟨_, hwf, _, _⟩ := h
+  have hrok := recOK_of_mem f.recs hwf r hr
+  obtain ⟨last, hok⟩ := hrok
+  unfold newIndex
+  rw [h1, scan_term st' _ rest hl, step_header st' r.name d t hok.name_ne hok.name_g hd ht]
+  have hc : (flush st').1.contains r.name = true := by
+    rw [h2]
+    simp only [Index.contains, List.any_map, List.any_eq_true]
+    -- the entry of r is among the entries
+    have : r.name ∈ (f.entries.map (·.name)) := by
+      have hn : ∀ o (recs : List Rec), (entriesFrom o recs).map (·.name) = recs.map (·.name) := by
+        intro o recs
+        induction recs generalizing o with
+        | nil => rfl
+        | cons x xs ih => simp [entriesFrom, Rec.entry, ih]
+      simp only [Hts.Spec.Fasta.File.entries, hn]
+      exact List.mem_map.mpr ⟨r, hr, rfl⟩
+    obtain ⟨e, he, hen⟩ := List.mem_map.mp this
+    exact ⟨e, he, by simp [Function.comp, ofEntry, hen]⟩
+  simp [hc]
